@@ -52,6 +52,15 @@ def exact(h):
         # KF-C20-mag-noise-override: the requested mag_noise = 0 is replaced by 0.5 % of the reference magnitude
         kf = h.kf('KF-C20-mag-noise-override', h.true())
         h.check(f'magnetometers[{i}] == R^T m when mag_noise = 0 (outside KF-C20-mag-noise-override)', kf | h.eq(s.magnetometers[i], R.T @ m))
+    # ang_pos, quaternions and rotations describe the same attitudes: rebuilding quaternions from ang_pos gives +-quaternions
+    from ahrs import QuaternionArray
+    Qr = np.array(QuaternionArray(rpy=np.array(s.ang_pos)))
+    for i in range(N):
+        h.check(f'QuaternionArray(rpy=ang_pos)[{i}] == +-quaternions[{i}]', h.same_quat(Qr[i], Q[i]) & h.is_unit(Qr[i]))
+    # bias bookkeeping with zero noise: gyroscopes - reported bias == angular velocity in the reported unit (radians here)
+    b = np.array(s.biases_gyroscopes)
+    for i in range(N):
+        h.check(f'gyroscopes[{i}] - biases_gyroscopes == ang_vel[{i}] (rad/s, zero noise)', h.eq(s.gyroscopes[i] - b, np.array(s.ang_vel)[i]))
     h.check('reported mag_noise is the level applied (0 requested): known override value only',
             h.eq(s.mag_noise, 0.0) | h.eq(s.mag_noise, float(np.linalg.norm(smod.REFERENCE_MAGNETIC_VECTOR) * 0.005)))
 
@@ -95,3 +104,24 @@ def noise_bias(h):
             else:
                 h.check(f'in_degrees=False: gyroscopes[{i}] - bias == omega (rad/s) + gyr_noise * n * DEG2RAD',
                         h.eq(s.gyroscopes[i] - b, w[i] + gn * ng[i] * D2R))
+
+
+@harness('C20/frequency', functions=[FS + '__init__', 'ahrs.common.quaternion:QuaternionArray.angular_velocities'], max_paths=16,
+         stubs=['ahrs.utils.sensors.GENERATOR: RNG contract (fresh symbols)'])
+def frequency(h):
+    """a non-default sampling frequency: the angular velocities are the quaternion differences over 1/freq"""
+    h.definedness = 'assume'
+    from ahrs import QuaternionArray
+    Q = np.array([h.unit_quat(f'q{i}') for i in range(N)])
+    if h.sym:
+        from symnp import proxy
+        smod.GENERATOR = proxy.PROXY.random
+    for freq in (50.0, 200.0):
+        s = Sensors(quaternions=Q.copy(), freq=freq, gyr_noise=0.0, acc_noise=0.0, mag_noise=1e6, in_degrees=True)
+        W = np.array(QuaternionArray(Q.copy()).angular_velocities(1.0 / freq))
+        h.check(f'freq={freq}: ang_vel[0] == 0', h.eq(np.array(s.ang_vel)[0], np.zeros(3)))
+        for i in range(1, N):
+            h.check(f'freq={freq}: ang_vel[{i}] == 2 Im(q*_(i-1) q_i) * freq', h.eq(np.array(s.ang_vel)[i], W[i - 1]))
+        b = np.array(s.biases_gyroscopes)
+        for i in range(N):
+            h.check(f'freq={freq}: gyroscopes[{i}] - bias == ang_vel in deg/s', h.eq(s.gyroscopes[i] - b, np.array(s.ang_vel)[i] * (180.0 / np.pi)))
